@@ -82,12 +82,22 @@ unsigned long _ZNKSt7__cxx1112basic_stringIcSt11char_traitsIcESaIcEE4findERKS4_m
 /* std::stod / std::stoll / std::stoull: a number, or std::invalid_argument / std::out_of_range */
 double __g2c_nondet_double(void); long __g2c_nondet_long(void);
 char _ZTISt16invalid_argument_obj[16];
+/* what the text of the string is, decided when it is first looked at and remembered: a numeral or not, and inside the range of the
+ * result type or not -- std::sto* and the C library's strto* agree on both (C++11 [string.conversions]: sto* call strto*) */
+int g_sto_calls; _Bool g_sto_is_numeral, g_sto_in_range;
+static void __sto_look(void) { if (g_sto_calls == 0) { g_sto_is_numeral = __g2c_nondet_bool(); g_sto_in_range = __g2c_nondet_bool(); } g_sto_calls++; }
 static _Bool __sto_fails(void)
 {
-  if (__g2c_nondet_bool()) { __cxa_throw(_ZTISt16invalid_argument_obj, G2C_EXC_invalid_argument, 0); return 1; }
-  if (__g2c_nondet_bool()) { __throw_out_of_range(); return 1; }
+  __sto_look();
+  if (!g_sto_is_numeral) { __cxa_throw(_ZTISt16invalid_argument_obj, G2C_EXC_invalid_argument, 0); return 1; }
+  if (!g_sto_in_range) { __throw_out_of_range(); return 1; }
   return 0;
 }
+/* double strtod(const char *s, char **end): no conversion leaves *end == s; a numeral outside the range sets errno to ERANGE */
+int g_errno_model;
+int *__errno_location(void) { return &g_errno_model; }
+double strtod(const char *s, char **end)
+{ __sto_look(); if (end) *end = (char *)s + (g_sto_is_numeral ? 1 : 0); if (g_sto_is_numeral && !g_sto_in_range) g_errno_model = 34 /* ERANGE */; return __g2c_nondet_double(); }
 double _ZNSt7__cxx114stodERKNS_12basic_stringIcSt11char_traitsIcESaIcEEEPm(const struct std_string *s, unsigned long *idx)
 { LIVE((void *)s, 32, "std::stod"); if (__sto_fails()) return 0.0; if (idx) *idx = __g2c_nondet_ulong(); return __g2c_nondet_double(); }
 long _ZNSt7__cxx115stollERKNS_12basic_stringIcSt11char_traitsIcESaIcEEEPmi(const struct std_string *s, unsigned long *idx, int base)
